@@ -30,7 +30,10 @@ soft graph, with every task a node of both.
 The closure de-duplicates tasks by identity, not by name (the name check that
 follows must see both tasks of an equal-name pair). USE-PURE - deriving a
 wrapper from another (from_func, map, using) has no write effect on the
-wrapper or task it starts from (ownership analysis).
+wrapper or task it starts from (ownership analysis). FACTORY-PURE - the only
+write of RunTaskFactory.make / copy that reaches the factory or the arguments,
+through any callee, is the memo self.cache (a request never changes what later
+requests of the same factory get).
 Not decided: the behaviour of a generated task when it is run (do() on a
 prepared environment); termination of the closure on cyclic graphs.
 '''
@@ -51,6 +54,7 @@ def check(ctx):
     ctx.run(memo.check_unique)
     ctx.run(memo.check_close_fields)
     ctx.run(memo.check_use_pure)
+    ctx.run(memo.check_factory_pure)
 
 
 def variants(program):
@@ -97,6 +101,33 @@ def variants(program):
         return False
     add('use-key-forgets-injected-tasks', 'mutant', USE,
         use_key_forgets_deps, {'KEY'})
+
+    def make_extends_factory_deps(tree):
+        # seed C15-r2-1: the factory's own list is extended in place
+        fun = find_func(tree, 'RunTaskFactory.make')
+        return replace_first(
+            fun, lambda n: isinstance(n, ast.BinOp) and txt(n) ==
+            'self.deps + deps',
+            lambda n: parse_expr('self.deps.__iadd__(deps)'))
+    add('seed-make-extends-the-factory-dependencies', 'mutant', RUN,
+        make_extends_factory_deps, {'FACTORY-PURE'}, quick=True,
+        note='every later task of the factory depends on them too')
+
+    def make_updates_factory_kwargs(tree):
+        fun = find_func(tree, 'RunTaskFactory.make')
+        return replace_first(
+            fun, lambda n: isinstance(n, ast.Call) and txt(n) ==
+            'self.kwargs.copy()', lambda n: parse_expr('self.kwargs'))
+    add('make-updates-the-factory-format-arguments', 'mutant', RUN,
+        make_updates_factory_kwargs, {'FACTORY-PURE'})
+
+    def make_unpacks_deps(tree):
+        fun = find_func(tree, 'RunTaskFactory.make')
+        return replace_first(
+            fun, lambda n: isinstance(n, ast.BinOp) and txt(n) ==
+            'self.deps + deps',
+            lambda n: parse_expr('[*self.deps, *deps]'))
+    add('twin-make-unpacks-dependencies', 'twin', RUN, make_unpacks_deps)
 
     def hit_returns_new(tree):
         fun = find_func(tree, 'RunTaskFactory.make')
